@@ -18,6 +18,9 @@ executor state.
 * `program_on_exec` — all assembled subroutines, run in order by `Exec.run` on one controller state, halt,
   and the final application state has the trace, outcome oracle, arrays and handle registers of `HostSem`.
 
+* `program_on_exec_views` — … and after EVERY flush the registers it returns hold `HostSem`'s values in the
+  shared memory of the application (what a `RegFuture` reads right after the flush).
+
 Hypotheses that remain, all named:
 * `AsmAll` — the input: each subroutine assembles (`Asm.assemble … = .ok A`, with `reserved` = the active
   registers of the memory manager at that flush, `reservedOf`; builder.py `subrt_compile_subroutine`) and
@@ -332,6 +335,144 @@ theorem program_on_exec (a : Nat) (segs : List (List Sdk.Host))
     · intro h v hv
       obtain ⟨r, b, e1, e2, _⟩ := hinvE.rel.regs h v hv
       exact ⟨r, b, by rw [hmem']; exact e1, by rw [← hrelE.regs r]; exact e2⟩
+
+/-! ### what the host reads after each flush, on the executor -/
+
+/-- the registers returned by a flush, in the shared memory of application `a` after the flush, hold
+`HostSem`'s values of their handles (the executor-level reading of `ViewOK.regs` / `future_value_sound_flush`) -/
+def RegViewX (a : Nat) (m1 : Sdk.Mem) (s1 : Sdk.HSt) (S1 : Exec.State) : Prop :=
+  ∀ r ∈ m1.regsToReturn, ∃ (h : Nat) (b : Bool) (v : Int) (x : Exec.XReg) (ap : Exec.App),
+    m1.handles[h]? = some (r, b) ∧ s1.hregs h = some v ∧ Asm.toX? (Bridge.cvReg r) = some x ∧
+    S1.apps a = some ap ∧ ap.shmRegs x = some v
+
+/-- `RegViewX` at every flush that sends a subroutine (`mids`: the controller states after the flushes) -/
+def ViewsX (a fuel : Nat) : Sdk.Mem → Nat → Nat → Sdk.HSt → List (List Sdk.Host) → List Exec.State → Prop
+  | _, _, _, _, [], _ => True
+  | m, nh, na, s, ops :: rest, mids =>
+    match Sdk.emitOps m ops, Sdk.runSegment fuel nh na ops s, mids with
+    | .ok (m1, pend), some (s1, nh1, na1), S1 :: Ss =>
+      match Sdk.flush m1 pend with
+      | .ok (m2, some _) =>
+        RegViewX a m1 s1 S1 ∧ ViewsX a fuel m2 nh1 na1 (Sdk.clearAll s1 (Sdk.segMHandles nh ops)) rest Ss
+      | .ok (m2, none) => ViewsX a fuel m2 nh1 na1 (Sdk.clearAll s1 (Sdk.segMHandles nh ops)) rest Ss
+      | .error _ => True
+    | _, _, _ => True
+
+/-- `ExecAll` with the controller states after each flush -/
+def ExecAllM (a : Nat) : List (Option (List Exec.Instr)) → Exec.State → List Exec.State → Exec.State → Prop
+  | [], S, mids, S' => mids = [] ∧ S' = S
+  | none :: r, S, mids, S' => ∃ ms, mids = S :: ms ∧ ExecAllM a r S ms S'
+  | some X :: r, S, mids, S' =>
+    ∃ fuel ms, (Exec.run false a X fuel S 0).out = .halted ∧ (Exec.run false a X fuel S 0).pc ≥ X.length ∧
+      mids = (Exec.run false a X fuel S 0).s :: ms ∧ ExecAllM a r (Exec.run false a X fuel S 0).s ms S'
+
+theorem ExecAllM.toExecAll (a : Nat) : ∀ (Xs : List (Option (List Exec.Instr))) (S : Exec.State)
+    (mids : List Exec.State) (S' : Exec.State), ExecAllM a Xs S mids S' → ExecAll a Xs S S'
+  | [], S, mids, S', h => h.2
+  | none :: r, S, mids, S', ⟨ms, _, h⟩ => ExecAllM.toExecAll a r S ms S' h
+  | some X :: r, S, mids, S', ⟨fuel, ms, h1, h2, _, h⟩ => ⟨fuel, h1, h2, ExecAllM.toExecAll a r _ ms S' h⟩
+
+theorem toX_cvReg {r : Sdk.Reg} (h : Sdk.regOK r = true) :
+    ∃ x : Exec.XReg, Asm.toX? (Bridge.cvReg r) = some x ∧ (⟨x.bank.val, x.idx.val⟩ : Sdk.Reg) = r := by
+  simp only [Sdk.regOK, Bool.and_eq_true, decide_eq_true_eq] at h
+  obtain ⟨hb, hi⟩ := h
+  refine ⟨⟨⟨r.bank, hb⟩, ⟨r.idx, hi⟩⟩, ?_, by cases r; rfl⟩
+  have h2 : (0 : Int) ≤ (r.idx : Int) ∧ (r.idx : Int) < 16 := by omega
+  simp [Asm.toX?, Bridge.cvReg, hb, h2]
+
+/-- `segs_on_exec` with the host views of the returned registers at every flush -/
+theorem segs_on_exec_views (a : Nat) : ∀ (segs : List (List Sdk.Host)) (fuel : Nat) (m m' : Sdk.Mem)
+    (subs : List (Option (List Sdk.PCmd))) (hs hsEnd : Sdk.HSt) (views : List Sdk.HSt) (ts : Sdk.St)
+    (Xs : List (Option (List Exec.Instr))) (t : Asm.State Asm.XMem) (S : Exec.State),
+    (∀ ops ∈ segs, ∀ op ∈ ops, Sdk.TopOK op) → Sdk.compileSegs m segs = .ok (m', subs) →
+    Sdk.hrunSegs fuel m.handles.length m.arrLens.length hs segs = some (hsEnd, views) →
+    Sdk.SegInv m hs ts → Sdk.MemOK m → AsmAll m segs Xs → Bridge.Rel ts t → Bridge.UnitOK t.mem false →
+    S.apps a = some (Asm.conc t).ap → S.loc (Asm.conc t).ap = Asm.conc t →
+    ∃ Smids SE, ExecAllM a Xs S Smids SE ∧ ViewsX a fuel m m.handles.length m.arrLens.length hs segs Smids
+  | [], fuel, m, m', subs, hs, hsEnd, views, ts, Xs, t, S, _, hc, hh, hinv, _, hX, hrel, hu, hS, hloc => by
+    simp only [AsmAll] at hX; subst hX
+    exact ⟨[], S, ⟨rfl, rfl⟩, trivial⟩
+  | ops :: rest, fuel, m, m', subs, hs, hsEnd, views, ts, Xs, t, S, hwf, hc, hh, hinv, hok, hX, hrel, hu, hS, hloc => by
+    simp only [Sdk.compileSegs] at hc
+    split at hc
+    · cases hc
+    · rename_i m1 pend he
+      split at hc
+      · cases hc
+      · rename_i m2 sub hf
+        split at hc
+        · cases hc
+        · rename_i m3 subs' hc'
+          cases hc
+          simp only [Sdk.hrunSegs] at hh
+          split at hh
+          · cases hh
+          · rename_i s1 nh1 na1 hseg
+            split at hh
+            · cases hh
+            · rename_i s2 views' hrest
+              cases hh
+              have htop : ∀ op ∈ ops, Sdk.TopOK op := hwf ops (by simp)
+              obtain ⟨ok1, cpend⟩ := Sdk.emitOps_ok ops _ _ _ hok he
+              obtain ⟨ok2, csub⟩ := Sdk.flush_ok ok1 cpend hf
+              simp only [AsmAll, he, hf] at hX
+              cases sub with
+              | none =>
+                obtain ⟨Xr, rfl, hXr⟩ := hX
+                obtain ⟨hinv2, en, ea⟩ := Sdk.segment_sim_none hinv htop he hf hseg
+                rw [en, ea] at hrest
+                obtain ⟨Ss, SE, hex, hv⟩ := segs_on_exec_views a rest fuel m2 _ subs' _ hsEnd views' ts Xr t S
+                  (fun o ho => hwf o (by simp [ho])) hc' hrest hinv2 ok2 hXr hrel hu hS hloc
+                refine ⟨S :: Ss, SE, ⟨Ss, rfl, hex⟩, ?_⟩
+                simp only [ViewsX, he, hseg, hf]
+                rw [en, ea]; exact hv
+              | some sb =>
+                obtain ⟨A, X, Xr, rfl, hA, hXe, hXr⟩ := hX
+                obtain ⟨ts1, hr1, hinv2, en, ea, hview⟩ := Sdk.segment_sim hinv htop he hf hseg
+                rw [en, ea] at hrest
+                obtain ⟨fl, t1, e1, e2, e3, hup, hu1⟩ :=
+                  flush_on_exec a sb (csub sb rfl) (reservedOf m2) A hA X hXe hr1 t hrel hu S hS hloc
+                obtain ⟨ts1', hinv2', hrel1, _, _, _, hshm, _⟩ :=
+                  scratch_dead_across_flushes hinv2 (fun i hi => mem_reservedOf hi) hup
+                obtain ⟨Ss, SE, hex, hv⟩ :=
+                  segs_on_exec_views a rest fuel m2 _ subs' _ hsEnd views' ts1' Xr t1 (S.put a (Asm.conc t1))
+                    (fun o ho => hwf o (by simp [ho])) hc' hrest hinv2' ok2 hXr hrel1 hu1
+                    (Exec.put_apps_self S a _) (Exec.loc_put S a _)
+                refine ⟨(S.put a (Asm.conc t1)) :: Ss, SE, ⟨fl, Ss, e2, e3, by rw [e1], by rw [e1]; exact hex⟩, ?_⟩
+                simp only [ViewsX, he, hseg, hf]
+                rw [en, ea]
+                refine ⟨?_, hv⟩
+                intro r hr
+                obtain ⟨h0, b, v, g1, g2, g3⟩ := hview.regs r hr
+                obtain ⟨x, hx, hxr⟩ := toX_cvReg (ok1.rret r hr)
+                refine ⟨h0, b, v, x, (Asm.conc t1).ap, g1, g2, hx, Exec.put_apps_self S a _, ?_⟩
+                show t1.mem.shmRegs x = some v
+                rw [← hrel1.shmRegs x, hxr, hshm]
+                exact g3
+
+/-- **`program_on_exec_views`.**  Under the hypotheses of `program_on_exec`: the subroutines run in order
+on one controller state (`ExecAllM`, `Smids` = the states after the flushes), and after EVERY flush that sends
+a subroutine the registers it returns hold, in the shared memory of application `a`, `HostSem`'s values of
+their handles (`ViewsX`) — what the host reads through a `RegFuture` right after the flush. -/
+theorem program_on_exec_views (a : Nat) (segs : List (List Sdk.Host))
+    (hwf : ∀ ops ∈ segs, ∀ op ∈ ops, Sdk.TopOK op)
+    (hbuild : (Sdk.run (Sdk.flat segs)).err = none) (fuel : Nat) (outs : List Int) (hsEnd : Sdk.HSt)
+    (hhost : (Sdk.hrun fuel outs (Sdk.flat segs)).final = some hsEnd)
+    (Xs : List (Option (List Exec.Instr))) (hX : AsmAll Sdk.Mem.init segs Xs)
+    (t0 : Asm.State Asm.XMem) (hrel0 : Bridge.Rel (Sdk.St.init outs) t0) (hu0 : Bridge.UnitOK t0.mem false)
+    (S0 : Exec.State) (hS0 : S0.apps a = some (Asm.conc t0).ap) (hloc0 : S0.loc (Asm.conc t0).ap = Asm.conc t0) :
+    ∃ Smids SE, ExecAllM a Xs S0 Smids SE ∧ ViewsX a fuel Sdk.Mem.init 0 0 (Sdk.HSt.init outs) segs Smids := by
+  obtain ⟨m', subs, hc, _, _⟩ := Sdk.run_segs segs Sdk.Mem.init 0 ⟨[], [], none, Sdk.Mem.init⟩ hbuild
+  have hseg : (Sdk.hrunSegs fuel 0 0 (Sdk.HSt.init outs) segs).map (·.1) = some hsEnd := by
+    rw [← Sdk.hrunProg_segs fuel segs ((Sdk.flat segs).length + 1) 0 0 (Sdk.HSt.init outs) []
+      (Nat.lt_succ_of_le (Sdk.flat_length_ge segs))]
+    exact hhost
+  cases hrs : Sdk.hrunSegs fuel 0 0 (Sdk.HSt.init outs) segs with
+  | none => rw [hrs] at hseg; cases hseg
+  | some r =>
+    obtain ⟨hsE, views⟩ := r
+    exact segs_on_exec_views a segs fuel Sdk.Mem.init m' subs (Sdk.HSt.init outs) hsE views (Sdk.St.init outs)
+      Xs t0 S0 hwf hc hrs (Sdk.segInv_init outs) Sdk.memOK_init hX hrel0 hu0 hS0 hloc0
 
 /-! ### non-vacuity: the hypotheses of `program_on_exec` hold for C05's demo program
 
